@@ -28,11 +28,11 @@ func VerifStageNodeFull(fqid string, call *CallStm, stage *Stage) *CallGraphStag
 // verifUnknownSource is a map-call source whose size is only known at run time.
 type verifUnknownSource struct{ mode CallMode }
 
-func (s *verifUnknownSource) CallMode() CallMode    { return s.mode }
-func (s *verifUnknownSource) KnownLength() bool     { return false }
-func (s *verifUnknownSource) ArrayLength() int      { return -1 }
-func (s *verifUnknownSource) Keys() map[string]Exp  { return nil }
-func (s *verifUnknownSource) GoString() string      { return "unknown" }
+func (s *verifUnknownSource) CallMode() CallMode   { return s.mode }
+func (s *verifUnknownSource) KnownLength() bool    { return false }
+func (s *verifUnknownSource) ArrayLength() int     { return -1 }
+func (s *verifUnknownSource) Keys() map[string]Exp { return nil }
+func (s *verifUnknownSource) GoString() string     { return "unknown" }
 
 // VerifUnknownSource returns such a source.
 func VerifUnknownSource(mode CallMode) MapCallSource { return &verifUnknownSource{mode: mode} }
